@@ -17,6 +17,7 @@ from __future__ import annotations
 
 from vlib.common import Run, Finding, BrokenTie, coq_eval_many, parse_eval, listlit, shrink_list
 
+K_RAISE = 'F31-limit-raise-does-not-request-cycle'
 STATUS = {'UNKNOWN': -1, 'OFFLINE': 0, 'AWAY': 1, 'ONLINE': 2}
 ST_COQ = {'UNKNOWN': 'Unknown', 'OFFLINE': 'Offline', 'AWAY': 'Away', 'ONLINE': 'Online'}
 
@@ -112,6 +113,7 @@ class Driver:
         self.answered = {}     # id -> tickets already answered by the peer
         self.order_bad = None
         self.nops = 0
+        self.cycles_at_raise = None
 
     def uname(self, u):
         return f'u{u}'
@@ -145,6 +147,30 @@ class Driver:
         if self.tw.a1_violations:
             self.viol.append(('A1-first-segment-after-next-cycle', f'{self.tw.a1_violations[:3]}', self.nops))
             self.tw.a1_violations.clear()
+
+    def idle_check(self):
+        """Property text, last clause: a queued upload of an eligible user is started while slots are free.  With the real
+        management job: if for 0.3 s no cycle ran and none is requested (the job is idle), no slot may be free while an
+        eligible user waits."""
+        tw = self.tw
+        c0 = tw.cycles
+        tw.w.loop.run_for(0.3)
+        tw.settle(100)
+        if tw.cycles != c0 or not tw.tm._management_queue.empty():
+            return
+        ups = self.snapshot_uploads()
+        neg = {i for i, t in enumerate(self.ts) if t._transfer_task is not None and not t._transfer_task.done()}
+        users = self.users_now()
+        busy = {i for i, u, st in ups if st in ('INITIALIZING', 'UPLOADING') or i in neg}
+        busy_users = {u for i, u, st in ups if i in busy}
+        free = tw.w.settings.transfers.limits.upload_slots - len(busy)
+        waiting = sorted({u for i, u, st in ups if st == 'QUEUED' and i not in neg and users[u][0] != 'OFFLINE' and u not in busy_users})
+        if free > 0 and waiting:
+            text = f'{free} free slot(s), eligible user(s) {waiting} with a queued upload, management job idle and no cycle requested'
+            if self.cycles_at_raise is not None and tw.cycles == self.cycles_at_raise:
+                self.viol.append((K_RAISE, text + ' since the limit was raised', self.nops))
+            else:
+                self.viol.append(('free-slot-not-used-at-rest', text, self.nops))
 
     def pre_settle(self):
         """Let the loop run until nothing is ready: first segments of created tasks, connection set-up.
@@ -268,7 +294,19 @@ class Driver:
                     evs.append(f'Requeue {k}')
         elif kind == 'S':
             n = op[1]
-            tw.w.settings.transfers.limits.upload_slots = n
+            how = op[2] if len(op) > 2 else 'field'
+            before = tw.w.settings.transfers.limits.upload_slots
+            if how == 'limits':        # the limits sub-model is replaced (settings dialog / reload building a new model)
+                from aioslsk.settings import TransferLimitSettings
+                tw.w.settings.transfers.limits = TransferLimitSettings(upload_slots=n)
+            elif how == 'transfers':   # the whole transfers section is replaced
+                from aioslsk.settings import TransfersSettings, TransferLimitSettings
+                tw.w.settings.transfers = TransfersSettings(limits=TransferLimitSettings(upload_slots=n),
+                                                            report_interval=tw.w.settings.transfers.report_interval)
+            else:
+                tw.w.settings.transfers.limits.upload_slots = n
+            if n > before:
+                self.cycles_at_raise = tw.cycles
             self.old = {i for i, t in enumerate(self.ts) if code_of(t) in (1, 2, 3)}
             evs.append(f'SetSlots {n}')
         elif kind == 'St':
@@ -292,6 +330,8 @@ class Driver:
             tw.settle(100)
         else:
             raise ValueError(op)
+        if not tw.driven:
+            self.idle_check()
         self.observe(evs, sel)
 
     def close(self):
@@ -345,7 +385,7 @@ def next_op(rng, d: Driver, free_running=False):
     if r < 0.84 and other:
         return ['RQ', rng.choice(other)]
     if r < 0.90:
-        return ['S', rng.choice([0, 1, 2, 3, 4])]
+        return ['S', rng.choice([0, 1, 2, 3, 4]), rng.choice(['field', 'field', 'limits', 'transfers'])]
     if r < 0.96:
         return ['St', rng.randrange(nu), rng.choice(['OFFLINE', 'AWAY', 'ONLINE']), rng.random() < 0.3]
     return ['F', rng.randrange(nu), rng.random() < 0.6]
@@ -379,7 +419,7 @@ def lowering_script(rng):
     order = list(range(5))
     rng.shuffle(order)
     ops += [['Q', u] for u in order] + [['Q', rng.randrange(5)] for _ in range(rng.randrange(0, 3))]
-    ops += [rng.choice([['C'], ['C'], ['CC']]), ['R'], ['S', rng.randrange(0, k)], rng.choice([['C'], ['CC']]), ['R']]
+    ops += [rng.choice([['C'], ['C'], ['CC']]), ['R'], ['S', rng.randrange(0, k), rng.choice(['field', 'limits', 'transfers'])], rng.choice([['C'], ['CC']]), ['R']]
     return pop, ops
 
 
@@ -504,6 +544,18 @@ def run(run: Run):
                         'only uploads are modelled (downloads do not use upload slots)']
     run.prove(['tr_prio'])
     run.cov['a1_checked_at_every_cycle'] = True
+
+    for key, wit, _fixed in run.known_witnesses():
+        if not wit:
+            continue
+        try:
+            _, viol, _ = execute(wit['pop'], wit['ops'], driven=(wit.get('mode', 'driven') == 'driven'))
+        except Exception as e:
+            run.add_broken('correspondence:C05 stored witness crashed', f'{key}: {type(e).__name__}: {e}')
+            continue
+        run.case({'witness': key}, kind='stored-witness')
+        for k, text, opi in viol:
+            run.add_finding(Finding(k, text, wit, observed=text, expected='property C05'))
 
     quick = run.tier == 'quick'
     n_driven = 120 if quick else 800
